@@ -497,10 +497,11 @@ def check_gauges(ctx, cirq):
     rng = ctx.substream('gauges')
     n = 10 if ctx.tier == 'quick' else 120
     gauges = {
-        'CZGaugeTransformer': (gc.CZGaugeTransformer, [cirq.CZ]),
-        'ISWAPGaugeTransformer': (gc.ISWAPGaugeTransformer, [cirq.ISWAP]),
-        'SqrtCZGaugeTransformer': (gc.SqrtCZGaugeTransformer, [cirq.CZ ** 0.5]),
-        'SqrtISWAPGaugeTransformer': (gc.SqrtISWAPGaugeTransformer, [cirq.SQRT_ISWAP]),
+        'CZGaugeTransformer': (gc.CZGaugeTransformer, [cirq.CZ, cirq.CZ ** 3, cirq.CZ ** -1]),
+        'ISWAPGaugeTransformer': (gc.ISWAPGaugeTransformer, [cirq.ISWAP, cirq.ISWAP ** 5, cirq.ISWAP ** -3]),
+        # (the same gates written with exponents outside one period: the target families accept them)
+        'SqrtCZGaugeTransformer': (gc.SqrtCZGaugeTransformer, [cirq.CZ ** 0.5, cirq.CZ ** -0.5, cirq.CZ ** 1.5, cirq.CZ ** -1.5, cirq.CZ ** 2.5, cirq.CZ ** -3.5]),
+        'SqrtISWAPGaugeTransformer': (gc.SqrtISWAPGaugeTransformer, [cirq.SQRT_ISWAP, cirq.ISWAP ** 4.5, cirq.ISWAP ** -3.5]),
         'CPhaseGaugeTransformer': (gc.CPhaseGaugeTransformer, [cirq.CZ, cirq.CZ ** 0.3, cirq.CZ ** -0.7, cirq.CZ ** 1.5]),
         'SpinInversionGaugeTransformer': (gc.SpinInversionGaugeTransformer, [cirq.ZZ ** 0.3, cirq.ZZ, cirq.CZ, cirq.ZZ ** -0.5]),
         'SYCGaugeTransformer': (cirq_google.transformers.sycamore_gauge.SYCGaugeTransformer if hasattr(cirq_google.transformers, 'sycamore_gauge') else None, [cirq_google.SYC]),
@@ -567,6 +568,16 @@ def check_gauges(ctx, cirq):
         circuit, qs = random_circuit(cirq, rng, measured=measured)
         rep = {'lines': [{'circuit': repr(circuit)}], 'theorem_or_correspondence': 'Lean reference semantics (C01 / C02)'}
         is_unitary = not any(cirq.is_measurement(o) or isinstance(o.untagged, cirq.ClassicallyControlledOperation) for o in flat_ops(cirq, circuit))
+        if not is_unitary and rng.random() < 0.5:
+            # measurements that are not plain MeasurementGate operations: observable measurements and measurements inside a sub-circuit
+            extra = []
+            if rng.random() < 0.6 and len(qs) >= 2:
+                a_, b_ = rng.sample(list(qs), 2)
+                extra.append(cirq.measure_single_paulistring(cirq.X(a_) * rng.choice([cirq.X, cirq.Z])(b_), key='obs'))
+            else:
+                extra.append(cirq.CircuitOperation(cirq.FrozenCircuit(cirq.H(qs[0]), cirq.measure(qs[0], key='inner'))))
+            circuit = cirq.Circuit(circuit, extra)
+        rep = {'lines': [{'circuit': repr(circuit)}], 'theorem_or_correspondence': 'Lean reference semantics (C01 / C02)'}
         outs = {}
         try:
             outs['insertion_sort_transformer'] = cirq.transformers.insertion_sort_transformer(circuit)
@@ -592,6 +603,9 @@ def check_gauges(ctx, cirq):
                 if not phase_close(got, want, 1e-6):
                     ctx.report_witness(f'misc:{name}', 'the transformed circuit has a different unitary (up to global phase)', dict(rep, impl_out=[repr(out)[:2000]], spec_out=['same unitary']))
             else:
+                if cirq.measurement_key_names(out) != cirq.measurement_key_names(circuit):
+                    ctx.report_witness(f'misc:{name}:keys', 'the transformed circuit does not measure the same keys', dict(rep, impl_out=[sorted(cirq.measurement_key_names(out))], spec_out=[sorted(cirq.measurement_key_names(circuit))]))
+                    continue
                 try:
                     want_d, got_d = lean_distribution(ctx, cirq, circuit, all_qs), lean_distribution(ctx, cirq, out, all_qs)
                 except common.InfraError:
